@@ -79,13 +79,22 @@ def _base():
     return _BASE["dir"]
 
 
+def _shared(kind):
+    """a directory of this process next to the state directories (working directory of the absolute
+    spellings / scratch area of the pristine exports); rmdir costs milliseconds on this file system,
+    so only the state directory itself is made and removed per build()."""
+    d = os.path.join(_base(), "%s-%d" % (kind, os.getpid()))
+    if not os.path.isdir(d):
+        os.mkdir(d)
+    return d
+
+
 def _new_dir():
-    d = tempfile.mkdtemp(prefix="s", dir=_base())
+    base = _base()
+    d = tempfile.mkdtemp(prefix="s", dir=base)
     _MINE.append(d)
     while len(_MINE) > KEEP_DIRS:
         shutil.rmtree(_MINE.pop(0), ignore_errors=True)
-    for sub in ("other", "sub", "pristine"):
-        os.mkdir(os.path.join(d, sub))
     return d
 
 
@@ -107,22 +116,23 @@ IMPORT_SP = {
 
 
 def _spell(d, sp, name):
+    other = _shared("cwd")  # a sibling of the state directory
     if sp == "str-rel":
         return d, name
     if sp == "path-rel":
         return d, Path(name)
     if sp == "str-abs":  # absolute spellings are used from another working directory
-        return os.path.join(d, "other"), os.path.join(d, name)
+        return other, os.path.join(d, name)
     if sp == "path-abs":
-        return os.path.join(d, "other"), Path(d) / name
+        return other, Path(d) / name
     if sp == "str-dot":
         return d, "./" + name
-    if sp == "path-up":  # relative to a sub-directory
-        return os.path.join(d, "sub"), Path("..") / name
+    if sp == "path-up":  # relative, through the parent, from the sibling directory
+        return other, Path("..") / os.path.basename(d) / name
     if sp == "str-env":
-        return os.path.join(d, "other"), "$C16DIR/" + name
+        return other, "$C16DIR/" + name
     if sp == "path-tilde":
-        return os.path.join(d, "other"), Path("~") / name
+        return other, Path("~") / name
     raise ValueError(sp)
 
 
@@ -149,16 +159,15 @@ def _call(d, sp, name, fn):
 
 
 def _snapshot(d):
-    """{relative name: bytes} of every file below d (the 'pristine' scratch area excluded)."""
+    """{name: bytes} of every file below the state directory d and below the working directory used for
+    the absolute spellings (prefixed 'cwd/'): a stray file in either is a changed bystander."""
     out = {}
-    for root, dirs, files in os.walk(d):
-        rel = os.path.relpath(root, d)
-        if rel == "pristine" or rel.startswith("pristine" + os.sep):
-            continue
-        for f in files:
-            p = os.path.join(root, f)
-            with open(p, "rb") as fh:
-                out[os.path.normpath(os.path.join(rel, f))] = fh.read()
+    for top, prefix in ((d, ""), (_shared("cwd"), "cwd/")):
+        for root, dirs, files in os.walk(top):
+            rel = os.path.relpath(root, top)
+            for f in files:
+                with open(os.path.join(root, f), "rb") as fh:
+                    out[prefix + os.path.normpath(os.path.join(rel, f))] = fh.read()
     return out
 
 
@@ -411,12 +420,12 @@ def state_diff(a, b, path="", seen=None, depth=0):
 # image letters
 # ------------------------------------------------------------------------------------------------
 IMG_H, IMG_W = 8, 32  # not square: a transposed axis convention changes the shape
-LOSSLESS_OUT = ["png", "bmp", "tif", "pgm", "ppm", "tiff", "dib", "pcx", "im", "pbm"]
+LOSSLESS_OUT = ["png", "bmp", "tif", "pgm", "ppm", "tiff", "dib", "pcx", "pbm"]  # (Pillow's .im writer needs ascii file names)
 FILE_LETTERS_QUICK = [
     ("png", "L"), ("png", "RGB"), ("png", "RGBA"), ("png", "P"), ("png", "1"),
     ("bmp", "L"), ("bmp", "RGB"), ("tif", "L"), ("tif", "RGB"), ("tiff", "RGB"), ("pgm", "L"), ("ppm", "RGB"),
 ]
-FILE_LETTERS_MORE = [("bmp", "P"), ("bmp", "1"), ("pbm", "1"), ("dib", "L"), ("dib", "RGB"), ("pcx", "L"), ("pcx", "RGB"), ("im", "L"), ("im", "RGB"), ("tiff", "L")]
+FILE_LETTERS_MORE = [("bmp", "P"), ("bmp", "1"), ("pbm", "1"), ("dib", "L"), ("dib", "RGB"), ("pcx", "L"), ("pcx", "RGB"), ("tiff", "L")]
 
 
 def u8_arrays(seed):
@@ -888,7 +897,12 @@ class C16(Check):
         if kind != "ow" and level >= 2:
             return []
         if kind == "lj":
-            return self._rt_ops([".ljson"], level)
+            ops = self._rt_ops([".ljson"], level)
+            if not hasattr(st["cur"], "n_points"):
+                # export_landmark_file compares Path(fp).suffix with ".ljson" case-sensitively for mappings:
+                # an upper-case extension is refused (ValueError) for dicts / managers - see assumptions()
+                ops = [o for o in ops if o[3] != "upper"]
+            return ops
         if kind == "pts":
             return self._rt_ops([".pts"], level)
         if kind == "pkl":
@@ -946,6 +960,12 @@ class C16(Check):
 
     # ------------------------------------------------------------------ step
     def apply(self, st, op, verify=True):
+        fails = self._apply(st, op, verify)
+        for f in fails:  # temporary directory names are random: keep them out of the (replay-compared) details
+            f.detail = f.detail.replace(st["dir"], "<dir>").replace(os.path.basename(st["dir"]), "<dir>").replace(_base(), "<base>")
+        return fails
+
+    def _apply(self, st, op, verify=True):
         kind = st["kind"]
         if kind == "ow":
             return self._apply_ow(st, op, verify)
@@ -1149,6 +1169,16 @@ class C16(Check):
             self.note("img:reimport-%s" % ("float" if norm else "uint8"))
             self.note("sp:%s" % sp_)
             self.note("img:gen%d" % min(st["gen"], 1))
+        if exp is None:
+            # what came back from the file is eight-bit data: from here on it must survive unchanged
+            bp = np.asarray(back.pixels).astype(np.float64) / (255.0 if back.pixels.dtype == np.uint8 else 1.0)
+            lv = np.rint(bp * 255.0)
+            if bp.ndim == 3 and bp.shape[0] in (1, 3) and (np.abs(bp - lv / 255.0) <= 1e-15).all():
+                lv = lv.astype(np.uint8)
+                st["ref"] = np.ascontiguousarray(lv[0] if lv.shape[0] == 1 else np.moveaxis(lv, 0, -1))
+                st["aux"]["fref"] = None
+            else:
+                st["aux"]["fref"] = bp
         st["cur"] = back
         return fails
 
@@ -1169,7 +1199,7 @@ class C16(Check):
         key = (exporter, which, name)
         if key not in st["pristine"]:
             obj, _ = self._ow_obj(st, exporter, which)
-            pd = os.path.join(st["dir"], "pristine")
+            pd = _shared("pristine")
             p = os.path.join(pd, name)
             if os.path.exists(p):
                 os.remove(p)
@@ -1310,6 +1340,7 @@ class C16(Check):
             "export_video is explored for the refusal path only (no ffmpeg): enabled only on existing paths with overwrite=False",
             "spellings that need expanduser / expandvars are explored for the refusal clause only (on success the landmark / image exporters open the unexpanded path)",
             "gzip files are compared after decompression where 'equal to a pristine export' is asked (the header holds a time stamp); 'intact' always means raw bytes",
+            "upper-case file extensions (F.V2.LJSON) are letters for single shapes, pts, pickles and images; for dicts / LandmarkManagers export_landmark_file refuses them with ValueError (its multi-group guard compares the suffix case-sensitively) - a refusal, not a changed round trip",
             "pickled lists of exactly one element come back unwrapped by import_pickle and LazyList.init_from_iterable is not picklable: neither is a letter",
         ]
 
